@@ -45,6 +45,7 @@ static Snap snapshot(const TasmanianSparseGrid &g, const Cfg &cfg){
     return s;
 }
 
+static std::vector<Op> alphabet_for(const std::string &prop, const Cfg &cfg, const std::string &tier);
 #include "mon_c01.inc"
 #include "mon_c04.inc"
 #include "mon_c07.inc"
